@@ -6,6 +6,7 @@ import MtailVerif.Driver.C10
 import MtailVerif.Driver.C12
 import MtailVerif.Driver.C13
 import MtailVerif.Driver.C22
+import MtailVerif.Driver.Rt
 /-! `mtailmodel <prop>`: reads the case lines written by the Go harness on stdin and prints
     `<id> OBS <observation>` computed by the Lean model.  Core Lean only (links as an exe). -/
 open MtailVerif MtailVerif.Driver
@@ -20,6 +21,10 @@ def handlerFor (prop : String) : Option (List String → String) :=
   | "C12" => some C12.handle
   | "C13" => some C13.handle
   | "C22" => some C22.handle
+  | "C14" => some Rt.handle
+  | "C06" => some Rt.handle
+  | "C25" => some Rt.handle
+  | "C26" => some Rt.handle
   | _ => none
 
 partial def loop (h : IO.FS.Stream) (out : IO.FS.Stream) (f : List String → String) : IO Unit := do
